@@ -6,6 +6,7 @@ package consensus
 
 import (
 	"fmt"
+	"github.com/tendermint/tendermint/crypto"
 	"os"
 	"runtime"
 	"strconv"
@@ -18,15 +19,18 @@ import (
 )
 
 type c02Config struct {
-	NodePos  int   `json:"node_pos"` // the node under test is the proposer of this round
+	NodePos  int    `json:"node_pos"` // the node under test is the proposer of this round
 	Strategy string `json:"strategy"` // default adversary: echo | nilprecommit | split (see moves)
-	MaxRound int32 `json:"max_round"`
-	MaxDev   int   `json:"max_dev"`
-	Eager    bool  `json:"eager_own"`
-	Stale    bool  `json:"stale_timeouts"`
+	MaxRound int32  `json:"max_round"`
+	MaxDev   int    `json:"max_dev"`
+	Eager    bool   `json:"eager_own"`
+	Stale    bool   `json:"stale_timeouts"`
 	// Powers (optional): the node under test is the single validator with the largest power, the adversaries hold equal powers
 	// (2,1,1,1: total 5, so that the rounding of the +2/3 threshold matters); NodePos is ignored
 	Powers []int64 `json:"powers,omitempty"`
+	// Mixed: the adversaries' block "A" is replaced by an inconsistent block id — a hash that is no block's hash together with the
+	// part-set header of block B — proposed with B's parts and voted for like any other value
+	Mixed bool `json:"mixed_block_id,omitempty"`
 }
 
 type c02Case struct {
@@ -102,6 +106,21 @@ func c02Build(r *vr.Report, c c02Config) *c02Setup {
 			}
 		}
 		_ = i
+	}
+	if c.Mixed {
+		blkB := w.blocks["B"]
+		psB := blkB.MakePartSet(types.BlockPartSizeBytes)
+		mixed := types.BlockID{Hash: crypto.Sha256([]byte("verif-c02-no-block-hashes-to-this")), PartSetHeader: psB.Header()}
+		s.blk["A"] = mixed
+		for rd := int32(0); rd <= c.MaxRound; rd++ {
+			p := w.proposerOf(rd)
+			if p == s.node {
+				continue
+			}
+			for pol := int32(-1); pol < rd; pol++ {
+				s.prop[fmt.Sprintf("%d/%s/%d", rd, "A", pol)] = w.signedProposal(p, rd, pol, mixed, psB)
+			}
+		}
 	}
 	s.blk["nil"] = types.BlockID{}
 	for _, name := range []string{"nil", "A", "B"} {
@@ -336,7 +355,9 @@ func (s *c02Setup) sortedProps() []int {
 // (a) at most one proposal / prevote / precommit value per round;
 // (b) the latest precommit for a block X in round R: the node holds X and its prevote set for R has > 2/3 for X;
 // (c) the latest prevote in round R': if the node's most recent non-nil precommit was X in R < R', the prevote
-//     is for X unless some round R'' in (R, R'] has a > 2/3 prevote quorum for something other than X.
+//
+//	is for X unless some round R'' in (R, R'] has a > 2/3 prevote quorum for something other than X.
+//
 // Rules (b) and (c) are evaluated for the newest signed vote only (older ones were judged when they were new);
 // vote sets only grow, and a step adds at most one foreign vote before the node signs, so the sets seen
 // after the step are the sets the node had when it signed.
@@ -483,6 +504,8 @@ func TestVerifC02(t *testing.T) {
 			cfgs = append(cfgs, c02Config{NodePos: pos, Strategy: "nilprecommit", MaxRound: 3, MaxDev: dev - 1, Eager: true})
 		}
 	}
+	// an inconsistent block id (foreign hash + the part-set header of a real block) proposed and voted for
+	cfgs = append(cfgs, c02Config{NodePos: 1, Strategy: "echo", MaxRound: 1, MaxDev: dev, Eager: true, Mixed: true})
 	// the node holds 2 of 5 (the adversaries 1 each): the +2/3 threshold is 4, one adversary's vote on top of the node's own must not be a quorum
 	cfgs = append(cfgs, c02Config{Strategy: "echo", MaxRound: 2, MaxDev: dev - 1, Eager: true, Powers: []int64{2, 1, 1, 1}})
 	if vr.Thorough() {
